@@ -33,6 +33,9 @@ type Obligation struct {
 	Status Status   `json:"status"`
 	Detail string   `json:"detail,omitempty"`
 	Path   []string `json:"path,omitempty"`
+	// an instance of something that must not occur at all ("the registry is written outside ..."): when nothing
+	// of the kind occurs there is no obligation under this key
+	NegOnly bool `json:"-"`
 }
 
 type Floor struct {
@@ -108,6 +111,16 @@ func (r *Report) check(rule, key string, pos token.Pos, ok bool, detail string, 
 		r.add(rule, key, pos, Violated, detail, path...)
 	}
 	return ok
+}
+
+// flag reports an occurrence of something the rule forbids outright; there is no discharged twin of it.
+func (r *Report) flag(rule, key string, pos token.Pos, detail string, path ...string) {
+	r.add(rule, key, pos, Violated, detail, path...)
+	for i := range r.Obls {
+		if r.Obls[i].Rule == rule && r.Obls[i].Key == key {
+			r.Obls[i].NegOnly = true
+		}
+	}
 }
 
 func (r *Report) undecided(rule, key string, pos token.Pos, detail string) {
